@@ -12,6 +12,7 @@ import warnings
 from fractions import Fraction as Fr
 
 import common
+import lattice_lib as Lg
 
 ASSUME = [
     "exact fractions for the detector point and grain position; floats only when calling the code; tolerance 1e-9 relative to the "
@@ -66,12 +67,18 @@ def worker(a):
     scale = max(1.0, abs(f(dety)), abs(f(detz)))
     want = np.array([f(dety), f(detz)])
     try:
-        c2 = np.array(detector.det_coor2(tth, eta, f(L), f(py), f(pz), f(y0), f(z0), Rf, f(pos[0]), f(pos[1]), f(pos[2])), dtype=float)
+        c2_, m2_ = Lg.twice(detector.det_coor2, tth, eta, f(L), f(py), f(pz), f(y0), f(z0), Rf, f(pos[0]), f(pos[1]), f(pos[2]))
+        if m2_:
+            out.append(m2_ + " (%s)" % tag)
+        c2 = np.array(c2_, dtype=float)
         if np.abs(c2 - want).max() > 1e-9 * scale:
             out.append("det_coor2 gives pixel %s, the ray from the grain along (2theta, eta) meets the detector at %s (%s)" % (c2.tolist(), want.tolist(), tag))
         lam = 0.4
         Gt = np.array([0.0, 2 * math.pi * f(v[1]) / lam, 2 * math.pi * f(v[2]) / lam])
-        c1 = np.array(detector.det_coor(Gt, f(v[0]), lam, f(L), f(py), f(pz), f(y0), f(z0), Rf, f(pos[0]), f(pos[1]), f(pos[2])), dtype=float)
+        c1_, m1_ = Lg.twice(detector.det_coor, Gt, f(v[0]), lam, f(L), f(py), f(pz), f(y0), f(z0), Rf, f(pos[0]), f(pos[1]), f(pos[2]))
+        if m1_:
+            out.append(m1_ + " (%s)" % tag)
+        c1 = np.array(c1_, dtype=float)
         if np.abs(c1 - want).max() > 1e-9 * scale:
             out.append("det_coor gives pixel %s for the same ray, expected %s (%s)" % (c1.tolist(), want.tolist(), tag))
         if np.abs(c1 - c2).max() > 1e-9 * scale:
